@@ -168,7 +168,17 @@ func mdnsviewMain(args []string) int {
 		if rnd.Intn(2) == 0 {
 			m.RequestMdnsEntries()
 		}
-		time.Sleep(30 * time.Millisecond)
+		// all report goroutines must get their turn, also on a loaded machine
+		for i := 0; i < 300; i++ {
+			time.Sleep(10 * time.Millisecond)
+			sink.mu.Lock()
+			done := len(sink.last) == total && i >= 2
+			sink.mu.Unlock()
+			if done {
+				break
+			}
+		}
+		time.Sleep(10 * time.Millisecond)
 		sink.mu.Lock()
 		sizes := append([]int{}, sink.sizes...)
 		lastN := len(sink.last)
